@@ -1,59 +1,36 @@
 import IpaVerif.Model.Dzkp
 /-!
-Exhaustive single-gate analysis for C03 `gate_views`: 2^9 gate states × 3 deviating helpers × 8 single-bit
-deviations × 3 observing helpers, by kernel evaluation (`decide +kernel`), one theorem per deviation kind
-so that no single tactic call is long. Core Lean only.
+Single-gate analysis for C03 `gate_views`: for **every** gate state (all shares of x, y and the PRSS masks),
+each of the 3 deviating helpers, 8 single-bit deviations and 3 observing helpers. The 72 (helper, deviation,
+observer) cases are enumerated; in each case the definitions unfold to a Boolean identity in the nine share
+bits, closed by `simp` or by `decide` over the bits that remain. Core Lean only.
 -/
 namespace IpaVerif.C03
 open IpaVerif.Dzkp
 
-def pick (a b c : Bool) (i : Hid) : Bool := match i with | .h0 => a | .h1 => b | .h2 => c
-def mkGate (x0 x1 x2 y0 y1 y2 p0 p1 p2 : Bool) : Gate :=
-  { x := pick x0 x1 x2, y := pick y0 y1 y2, p := pick p0 p1 p2 }
+/-- honest execution: every prover's `(u, v)` indices match what both verifiers recompute, the verifiers'
+triple is consistent, nobody rejects. -/
+theorem honest_sym (g : Gate) (i : Hid) :
+    proverMatches (views g none) i = true ∧ verifierTripleConsistent (views g none) i = true ∧
+      rejects (views g none) i = false := by
+  cases i <;>
+    simp [rejects, proverMatches, verifierTripleConsistent, views, honestView, proverU, proverV, leftVerifierU,
+      rightVerifierV, eq3, Hid.next, Hid.prev, zOf] <;>
+    (generalize g.x .h0 = x0; generalize g.x .h1 = x1; generalize g.x .h2 = x2
+     generalize g.y .h0 = y0; generalize g.y .h1 = y1; generalize g.y .h2 = y2
+     generalize g.p .h0 = p0; generalize g.p .h1 = p1; generalize g.p .h2 = p2
+     revert x0 x1 x2 y0 y1 y2 p0 p1 p2; decide)
 
-/-- every gate is `mkGate` of its nine bits. -/
-theorem gate_eq_mkGate (g : Gate) :
-    g = mkGate (g.x .h0) (g.x .h1) (g.x .h2) (g.y .h0) (g.y .h1) (g.y .h2) (g.p .h0) (g.p .h1) (g.p .h2) := by
-  cases g with
-  | mk x y p =>
-    simp only [mkGate, Gate.mk.injEq]
-    refine ⟨?_, ?_, ?_⟩ <;> (funext i; cases i <;> rfl)
-
-def honestCheck (g : Gate) : Bool :=
-  Hid.all.all fun i =>
-    proverMatches (views g none) i && verifierTripleConsistent (views g none) i && !rejects (views g none) i
-
-theorem honest_all : ∀ x0 x1 x2 y0 y1 y2 p0 p1 p2 : Bool,
-    honestCheck (mkGate x0 x1 x2 y0 y1 y2 p0 p1 p2) = true := by decide +kernel
-
-def flipCheck (f : Flip) (g : Gate) : Bool :=
-  Hid.all.all fun j => Hid.all.all fun h =>
-    !(rejects (views g (some (j, f))) h ^^ Hid.mem h (predictedRejecters j f))
-
-theorem flip_xl : ∀ x0 x1 x2 y0 y1 y2 p0 p1 p2 : Bool, flipCheck .xl (mkGate x0 x1 x2 y0 y1 y2 p0 p1 p2) = true := by decide +kernel
-theorem flip_xr : ∀ x0 x1 x2 y0 y1 y2 p0 p1 p2 : Bool, flipCheck .xr (mkGate x0 x1 x2 y0 y1 y2 p0 p1 p2) = true := by decide +kernel
-theorem flip_yl : ∀ x0 x1 x2 y0 y1 y2 p0 p1 p2 : Bool, flipCheck .yl (mkGate x0 x1 x2 y0 y1 y2 p0 p1 p2) = true := by decide +kernel
-theorem flip_yr : ∀ x0 x1 x2 y0 y1 y2 p0 p1 p2 : Bool, flipCheck .yr (mkGate x0 x1 x2 y0 y1 y2 p0 p1 p2) = true := by decide +kernel
-theorem flip_pl : ∀ x0 x1 x2 y0 y1 y2 p0 p1 p2 : Bool, flipCheck .pl (mkGate x0 x1 x2 y0 y1 y2 p0 p1 p2) = true := by decide +kernel
-theorem flip_pr : ∀ x0 x1 x2 y0 y1 y2 p0 p1 p2 : Bool, flipCheck .pr (mkGate x0 x1 x2 y0 y1 y2 p0 p1 p2) = true := by decide +kernel
-theorem flip_zr : ∀ x0 x1 x2 y0 y1 y2 p0 p1 p2 : Bool, flipCheck .zr (mkGate x0 x1 x2 y0 y1 y2 p0 p1 p2) = true := by decide +kernel
-theorem flip_sentZ : ∀ x0 x1 x2 y0 y1 y2 p0 p1 p2 : Bool, flipCheck .sentZ (mkGate x0 x1 x2 y0 y1 y2 p0 p1 p2) = true := by decide +kernel
-
-theorem flip_all (f : Flip) (g : Gate) : flipCheck f g = true := by
-  rw [gate_eq_mkGate g]
-  cases f
-  · exact flip_xl ..
-  · exact flip_xr ..
-  · exact flip_yl ..
-  · exact flip_yr ..
-  · exact flip_pl ..
-  · exact flip_pr ..
-  · exact flip_zr ..
-  · exact flip_sentZ ..
-
-theorem hid_all (P : Hid → Bool) (h : Hid.all.all P = true) (i : Hid) : P i = true := by
-  simp [Hid.all] at h
-  cases i <;> simp [h]
+/-- one deviating helper `j`, one flipped bit `f`: helper `h` rejects iff it is in the predicted set. -/
+theorem flip_sym (g : Gate) (j : Hid) (f : Flip) (h : Hid) :
+    rejects (views g (some (j, f))) h = Hid.mem h (predictedRejecters j f) := by
+  cases j <;> cases f <;> cases h <;>
+    simp [rejects, proverMatches, views, honestView, flipView, proverU, proverV, leftVerifierU, rightVerifierV,
+      eq3, Hid.next, Hid.prev, Hid.same, Hid.mem, predictedRejecters, zOf] <;>
+    (generalize g.x .h0 = x0; generalize g.x .h1 = x1; generalize g.x .h2 = x2
+     generalize g.y .h0 = y0; generalize g.y .h1 = y1; generalize g.y .h2 = y2
+     generalize g.p .h0 = p0; generalize g.p .h1 = p1; generalize g.p .h2 = p2
+     revert x0 x1 x2 y0 y1 y2 p0 p1 p2; decide)
 
 theorem hid_mem_iff (h : Hid) (l : List Hid) : Hid.mem h l = true ↔ h ∈ l := by
   induction l with
